@@ -209,6 +209,8 @@ class Sim:
                 await sim._real_sleep(0.05)
             if sim.status_mode == "close-on-disconnect" and s.name == "DISCONNECTED":
                 await c.close()          # the user gives up on the first fault: close() from inside the status callback
+            if sim.status_mode == "close-on-reconnected" and s.name == "CONNECTED" and sim.status_log.count("CONNECTED") >= 2:
+                await c.close()          # the user closes when the link comes back: close() from inside the reconnect task's connect()
             if sim.status_mode == "connect-on-disconnect" and s.name == "DISCONNECTED":
                 await c.connect()        # "on disconnect, reconnect" written by the user although the client does it by itself
         c.set_status_callback(status_cb)
@@ -345,7 +347,8 @@ class Sim:
             # close() called from inside the receive task (from the status callback that task runs) is a different event
             # for the model: the caller is the receive task, which is then not cancelled and ends by itself
             inside = asyncio.current_task() is getattr(c, "_receive_task", None)
-            sim.emit("closeCallInRecv" if inside else "closeCall")
+            in_reconn = asyncio.current_task() in getattr(sim, "reconn_tasks", ())
+            sim.emit("closeCallInRecv" if inside else ("closeCallInReconn" if in_reconn else "closeCall"))
             try:
                 await orig_close()
             except BaseException as e:
